@@ -55,7 +55,7 @@ CHECKS = {
     ),
     "C02": dict(
         technique=SQL,
-        text="TLC enumerates programs over tables T1{a,b} (3-12 contents incl. duplicates/empties, exact/loose/zero/unbounded declarations), T2{a,c}, T3{a,b}: the six unary operations from a general menu (all projections, 10 predicates, 7 sort lists, 7 slices) to depth 2 and a focused 12-operation menu (hitting every has_slice/has_dedup/has_projection/compound branch of the Select machine) to depth 3-5, plus join (with/without predicate, operand on either side) and chain with 12 pre-built operands (projected, deduplicated, selected, sorted+sliced, calculated, bare chain). TLC proves on the code-shaped Select machine that the tree denotes the reference bag for both physical table orders whenever the bag is determined. Every TLC state is built through the real API, compiled by the real engine, run on SQLite with reverse_unordered_selects off and on, and compared as a multiset with TLC's rows; the real tree is also judged by TLC (denotation guarded by TLC's own determinacy analysis of the real tree). Operands include relations made by the engine itself (doomed, zero-column doomed, join identity); column tags have colliding hashes and column sets are declared in different insertion orders so that positional UNION pairing is exercised. Deep random programs (5-12 operations) run on SQLite are judged by TLC (TraceProgram).",
+        text="TLC enumerates programs over tables T1{a,b} (3-12 contents incl. duplicates/empties, exact/loose/zero/unbounded declarations), T2{a,c}, T3{a,b}: the six unary operations from a general menu (all projections, 10 predicates, 7 sort lists, 7 slices) to depth 2 and a focused 12-operation menu (hitting every has_slice/has_dedup/has_projection/compound branch of the Select machine) to depth 3-5, plus join (with/without predicate, operand on either side) and chain with 12 pre-built operands (projected, deduplicated, selected, sorted+sliced, calculated, bare chain). TLC proves on the code-shaped Select machine that the tree denotes the reference bag for both physical table orders whenever the bag is determined, and - on the code-shaped COMPILATION model RA_SqlCompile (to_payload / _select_to_executable with the columns_available plumbing) - that the abstract SQL statement, run with both table orders, returns that bag (CompileBag) and never fails to compile (CompileTotal). The shape of every real SQLAlchemy statement (nesting, DISTINCT, WHERE/ON, ORDER BY directions, OFFSET/LIMIT, columns) is compared with the shape the model predicts. Every TLC state is built through the real API, compiled by the real engine, run on SQLite with reverse_unordered_selects off and on, and compared as a multiset with TLC's rows; the real tree is also judged by TLC (denotation guarded by TLC's own determinacy analysis of the real tree). Operands include relations made by the engine itself (doomed, zero-column doomed, join identity); column tags have colliding hashes and column sets are declared in different insertion orders so that positional UNION pairing is exercised. Deep random programs (5-12 operations) run on SQLite are judged by TLC (TraceProgram).",
         design_ref="§0.1, §6 C02",
         note="bounded: values 0..1, <=4 rows; SQLite only; bag equality demanded only when TLC's DetTree holds; nested bare compound selects are compiled but not executed (SQLite grammar limit)",
     ),
